@@ -24,7 +24,7 @@ FUNCS = ["interfaces.ObservableResource._render_to_pipe", "resource.ObservableRe
 EV = ["change", "ack", "rst", "timer", "rereg", "plainget", "error", "unsuccessful", "wait", "dereg", "shutdown", "last", "last+change"]
 
 
-def mk_obs(first, depth, slow, reg_con, allow_rst=True, two_observers=False):
+def mk_obs(first, depth, slow, reg_con, allow_rst=True, two_observers=False, d20="exclude", only=None):
     def make(reach):
         import asyncio
         from vf import stack
@@ -64,6 +64,7 @@ def mk_obs(first, depth, slow, reg_con, allow_rst=True, two_observers=False):
 
         def h(e2: int, e3: int, e4: int) -> None:
             assert 0 <= e2 < len(EV) and 0 <= e3 < len(EV) and 0 <= e4 < len(EV)
+            assert only is None or (e2 == only[0] and EV[e3] in only[1])
             evs = [first, e2, e3, e4][:depth]
             with SimLoop() as loop:
                 res = Obs()
@@ -96,6 +97,23 @@ def mk_obs(first, depth, slow, reg_con, allow_rst=True, two_observers=False):
                 def active():
                     return [k for k in S.mman._active_exchanges if k[0].sockaddr[:2] == src[:2]]
 
+                def queued():
+                    """notifications for the observer's token waiting in the NSTART backlog (handed over, not yet transmitted)"""
+                    out = []
+                    for rem, lst in S.mman._backlogs.items():
+                        if rem.sockaddr[:2] == src[:2]:
+                            out += [m for (m, mon) in lst if m.token == TOK and m.opt.observe is not None]
+                    return out
+
+                def wire():
+                    """distinct datagrams for the observer's token in order of first transmission: (observe, state or None, code)"""
+                    out = []
+                    for o in mine():
+                        if o.token == TOK and int(o.code) != 0:
+                            st = int(o.payload[1:]) if o.payload[:1] == b"s" and o.payload[1:].isdigit() else None
+                            out.append((o.opt.observe, st, int(o.code)))
+                    return out
+
                 if two_observers:
                     get(0, stack.R2, b"\x0a")
                     loop.advance(10)
@@ -118,10 +136,16 @@ def mk_obs(first, depth, slow, reg_con, allow_rst=True, two_observers=False):
                             notif_reg[o.mid] = reg
                 attribute()
 
+                quiet_from = None           # index into wire() from which on nothing of an ended registration may appear
                 for e in evs:
                     if down:
                         break
                     ev = pick(EV, e)
+                    if d20 == "exclude" and reg is not None and ev in ("rereg", "plainget", "dereg") and queued():
+                        # known finding D20: a registration ended by a new request on its token while notifications of
+                        # it wait in the NSTART backlog -- they are still transmitted afterwards.  Companion obligations
+                        # observe-backlog-after-end-* keep that class covered; the histories are left out here.
+                        return
                     if ev == "change":
                         res.state += 1
                         res.updated_state()
@@ -152,8 +176,10 @@ def mk_obs(first, depth, slow, reg_con, allow_rst=True, two_observers=False):
                             end(reg)
                             reg = None
                     elif ev == "timer":
-                        ts = [hn for hn in loop.pending_timers() if getattr(hn._callback, "__name__", "") == "retr"]
+                        # the retransmission timer of the observer's open exchange (not the neighbour's, who always answers)
                         act = active()
+                        mine_h = [v[1] for k2, v in S.mman._active_exchanges.items() if k2 in act]
+                        ts = [hn for hn in loop.pending_timers() if getattr(hn._callback, "__name__", "") == "retr" and hn in mine_h]
                         if not ts:
                             continue
                         loop.fire(loop._earliest(ts))
@@ -211,8 +237,30 @@ def mk_obs(first, depth, slow, reg_con, allow_rst=True, two_observers=False):
                             end(reg)
                             reg = None
                         down = True
+                    if two_observers and not down:
+                        # the neighbour acknowledges whatever it is sent, at once
+                        for k2 in [k2 for k2 in S.mman._active_exchanges if k2[0].sockaddr[:2] == stack.R2[:2]]:
+                            S.deliver(Message(code=EMPTY, _mtype=ACK, _mid=k2[1]).encode(), stack.R2)
                     # ---- invariants after every event
                     attribute()
+                    w = wire()
+                    # (b) within a registration (from its Observe 0 response on) the notified states never go backwards
+                    run_states = []
+                    for (ob, st, cd) in w:
+                        if ob == 0:
+                            run_states = []
+                        if ob is not None and st is not None:
+                            assert not run_states or st >= run_states[-1], "an older state notified after a newer one within a registration"
+                            run_states.append(st)
+                    # (a) once a registration has ended no further notification of it reaches the wire: until a new registration
+                    # starts (Observe 0 response) nothing with an Observe option follows; 'last' / 'unsuccessful' end with their
+                    # final message, which itself comes after everything handed over earlier
+                    if reg is None and ev in ("rst", "plainget", "dereg", "error", "timer", "shutdown") and quiet_from is None:
+                        quiet_from = len(w)
+                    if reg is not None:
+                        quiet_from = None
+                    if quiet_from is not None:
+                        assert all(ob is None for (ob, st, cd) in w[quiet_from:]), "notification transmitted for a registration that has ended"
                     ns = notifs()
                     assert all(o.token == TOK for o in ns)
                     # notifications after the registration response are separate messages: confirmable / non-confirmable like the
@@ -235,6 +283,16 @@ def mk_obs(first, depth, slow, reg_con, allow_rst=True, two_observers=False):
                         for k in active():
                             S.deliver(Message(code=EMPTY, _mtype=ACK, _mid=k[1]).encode(), src)
                     loop.advance(7)
+                w = wire()
+                if quiet_from is not None and reg is None:
+                    assert all(ob is None for (ob, st, cd) in w[quiet_from:]), "notification transmitted for a registration that has ended"
+                run_states = []
+                for (ob, st, cd) in w:
+                    if ob == 0:
+                        run_states = []
+                    if ob is not None and st is not None:
+                        assert not run_states or st >= run_states[-1], "an older state notified after a newer one within a registration"
+                        run_states.append(st)
                 ns = notifs()
                 # ended registrations: callback exactly once, nothing sent for them afterwards
                 for (i, n_at_end, final_allowed) in ended_marks:
@@ -398,6 +456,13 @@ def obligations(tier):
     obs.append(Obligation("observe-ends-during-first-render", mk_first_render, 280 if q else 900, functions=FUNCS,
                           symbolic={"how it ends": "index over %s" % FIRST_ENDS, "registration type": "CON / NON", "instant": "0..6 ticks into a rendering of 5 ticks"},
                           stubs=["SimLoop", "FakeDatagramTransport", "integer tuning", "random stubs"]))
+    # known finding D20: registration ended while notifications of it wait in the NSTART backlog
+    for nm, kinds in (("new-request", ("rereg", "plainget", "dereg")),):
+        obs.append(Obligation("observe-backlog-after-end-%s" % nm, mk_obs(0, 3, False, True, d20="include", only=(0, kinds)), 120, functions=FUNCS,
+                              expect="violated", finding="D20", twin=False,
+                              symbolic={"third event": "index over %s" % (kinds,)},
+                              concrete={"events": "change, change (second notification queued behind the unacknowledged first), then the ending event", "registration": "CON"},
+                              note="companion of known finding D20"))
     # known finding D7: Reset answering a non-confirmable notification
     obs.append(Obligation("observe-non-rst", mk_obs(0, 2, False, False, allow_rst=True), 120, functions=FUNCS, expect="violated", finding="D7", twin=False,
                           symbolic={"second event": "index (a Reset after the first non-confirmable notification is among them)"},
